@@ -60,7 +60,7 @@ def grammar(tier):
              "2020.02.03", "Feb 3 2020", "3 February 2020", "2020-2-3", "2020-02-03 ", " 2020-02-03"]
     times = ["12", "12:30", "12:30:45", "12:30:45.5", "12:30:45.123456", "12:30:45.1234567", "1230", "123045", "24:00",
              "24:00:00", "24:30", "12:60", "12:30:61", "12:30:60", "00:00", "T12:30", "12:30 PM", "12h30", "7:05", "12:30:45,5"]
-    zones = ["", "Z", "+01:00", "-0530", "+01", " UTC", "+25:00"]
+    zones = ["", "Z", "+01:00", "-0530", "+01", " UTC", "+25:00", "+24:00", "-24:00", "+23:59", "-2359"]
     for d in dates:
         add("iso:date", d)
     for t in times:
